@@ -131,6 +131,51 @@ def shard(ctx, check_text, report_hook, HOOK, configs):
             indent, asc = rng.choice(configs)
             run_value(ctx, spec, t, v, indent, asc, check_text, report_hook,
                       HOOK)
+    quiet_family(ctx, check_text, report_hook, HOOK, configs)
+
+
+def quiet_family(ctx, check_text, report_hook, HOOK, configs):
+    """A class that reports only the attributes that differ from their
+    defaults through _yatiml_attributes(): with everything at its default
+    that is an empty mapping, a value like any other."""
+    rng = ctx.rng
+    spec = {'classes': [
+        {'name': 'Quiet', 'kind': 'plain', 'attributes_hook': 'nondefault',
+         'params': [{'name': 'q_a', 'type': 'int', 'default': 1},
+                    {'name': 'q_b', 'type': 'str', 'default': 'x'},
+                    {'name': 'q_c', 'type': ['list', 'int'],
+                     'default': None}]},
+        {'name': 'Box', 'kind': 'plain',
+         'params': [{'name': 'box_id', 'type': 'int'},
+                    {'name': 'box_q', 'type': ['cls', 'Quiet']},
+                    {'name': 'box_l', 'type': ['list', ['cls', 'Quiet']]},
+                    {'name': 'box_d', 'type': ['dict', 'str',
+                                               ['cls', 'Quiet']]}]}],
+        'doc_type': ['cls', 'Box']}
+    spec['classes'][0]['params'][2]['type'] = ['opt', ['list', 'int']]
+    try:
+        m = H.model_of(spec)
+    except Exception as e:
+        ctx.note('quiet family: %r' % (e,))
+        return
+    spec = H.clean_spec(spec)
+    Q, Box = m.classes['Quiet'], m.classes['Box']
+
+    def q():
+        r = rng.random()
+        if r < 0.5:
+            return Q(q_a=1, q_b='x', q_c=None)          # all defaults
+        return Q(q_a=rng.choice([1, 2]), q_b=rng.choice(['x', 'y']),
+                 q_c=rng.choice([None, [], [1]]))
+    for _ in range(ctx.budget(320, 3200)):
+        indent, asc = rng.choice(configs)
+        ctx.count('quiet_family_values')
+        for t, v in ((['cls', 'Quiet'], q()),
+                     (['list', ['cls', 'Quiet']], [q(), q()]),
+                     (['cls', 'Box'], Box(box_id=1, box_q=q(), box_l=[q()],
+                                          box_d={'k': q()}))):
+            run_value(ctx, spec, t, v, indent, asc, check_text, report_hook,
+                      HOOK)
 
 
 def replay(ctx, case, check_text, report_hook, HOOK):
